@@ -166,7 +166,7 @@ func TestVerif_C46(t *testing.T) {
 	// ---- 1. exhaustive small layouts
 	maxBlobs, maxSize := 4, 3
 	if kit.Thorough() {
-		maxBlobs, maxSize = 5, 3
+		maxBlobs, maxSize = 5, 4
 	}
 	pool := vc46Pool(4, 6)
 	var all [][]byte
@@ -176,18 +176,6 @@ func TestVerif_C46(t *testing.T) {
 	e.save(all)
 	root := &Root{repo: e.repo, blobCache: bloblru.New(blobCacheSize)}
 	layouts := vc46Layouts(maxBlobs, maxSize)
-	if kit.Thorough() {
-		// plus every layout of <= 4 blobs with sizes <= 4
-		for _, l := range vc46Layouts(4, 4) {
-			has4 := false
-			for _, s := range l {
-				has4 = has4 || s == 4
-			}
-			if has4 {
-				layouts = append(layouts, l)
-			}
-		}
-	}
 	for li, sizes := range layouts {
 		for _, repeat := range []bool{false, true} {
 			if repeat && len(sizes) < 2 {
